@@ -8,6 +8,7 @@ import (
 	"fmt"
 	"math/rand"
 	"reflect"
+	"sync"
 	"strings"
 	"unsafe"
 
@@ -41,7 +42,7 @@ func (tc *trieCase) encode(c06 bool) []int64 {
 	if c06 {
 		in = append(in, PutList(Bytes(tc.repl))...)
 		in = append(in, tc.mask)
-	} else if tc.dump {
+	} else if tc.dump && TrieDumpOK() {
 		in = append(in, 1)
 	}
 	return in
@@ -151,27 +152,148 @@ type trieDumpNode struct {
 	fail        unsafe.Pointer
 }
 
-func trieField(v reflect.Value, name string, kind reflect.Kind) reflect.Value {
-	f := v.FieldByName(name)
-	if !f.IsValid() || f.Kind() != kind || !f.CanAddr() {
-		panic("trie layout: field " + name)
+// The layout of Trie / trieNode / childNode is found by TYPE (names are hints only, extra fields are ignored):
+//   Trie:      the field that is a node (struct) or a pointer to one — a node is a struct with a slice of structs that
+//              hold a rune and a pointer back to the node type;
+//   trieNode:  children = that slice, fail = the other pointer to the node type, isEnd = the bool field, size = the int field;
+//   childNode: val = the int32 field, node = the pointer to the node type.
+// A self test on a three-pattern trie decides whether the walk understands the layout; if not, the Dump observation is
+// dropped (InstrLost) instead of failing cases.
+type trieLayout struct {
+	ok                                          bool
+	rootIdx                                     int
+	rootIsPtr                                   bool
+	kidsIdx, failIdx, endIdx, sizeIdx           int
+	valIdx, nodeIdx                             int
+}
+
+var trieLay struct {
+	once sync.Once
+	l    trieLayout
+}
+
+func idxOf(t reflect.Type, hints []string, pred func(reflect.StructField) bool) int {
+	f, ok := PickField(t, hints, pred)
+	if !ok {
+		return -1
 	}
+	return f.Index[0]
+}
+
+func trieFindLayout() (l trieLayout) {
+	defer func() {
+		if recover() != nil {
+			l.ok = false
+		}
+	}()
+	tt := reflect.TypeOf(algz.Trie{})
+	isNode := func(nt reflect.Type) bool {
+		if nt.Kind() != reflect.Struct {
+			return false
+		}
+		for i := 0; i < nt.NumField(); i++ {
+			ft := nt.Field(i).Type
+			if ft.Kind() == reflect.Slice && ft.Elem().Kind() == reflect.Struct {
+				for j := 0; j < ft.Elem().NumField(); j++ {
+					if g := ft.Elem().Field(j).Type; g.Kind() == reflect.Ptr && g.Elem() == nt {
+						return true
+					}
+				}
+			}
+		}
+		return false
+	}
+	l.rootIdx = idxOf(tt, []string{"root"}, func(f reflect.StructField) bool {
+		return isNode(f.Type) || (f.Type.Kind() == reflect.Ptr && isNode(f.Type.Elem()))
+	})
+	if l.rootIdx < 0 {
+		return l
+	}
+	nt := tt.Field(l.rootIdx).Type
+	if nt.Kind() == reflect.Ptr {
+		l.rootIsPtr, nt = true, nt.Elem()
+	}
+	l.kidsIdx = idxOf(nt, []string{"children", "kids", "next"}, func(f reflect.StructField) bool {
+		return f.Type.Kind() == reflect.Slice && f.Type.Elem().Kind() == reflect.Struct
+	})
+	l.failIdx = idxOf(nt, []string{"fail", "suffix", "link"}, func(f reflect.StructField) bool {
+		return f.Type.Kind() == reflect.Ptr && f.Type.Elem() == nt
+	})
+	l.endIdx = idxOf(nt, []string{"isEnd", "end", "terminal", "final"}, KindIs(reflect.Bool))
+	l.sizeIdx = idxOf(nt, []string{"size", "depth", "len"}, KindIs(reflect.Int))
+	if l.kidsIdx < 0 || l.failIdx < 0 || l.endIdx < 0 || l.sizeIdx < 0 {
+		return l
+	}
+	ct := nt.Field(l.kidsIdx).Type.Elem()
+	l.valIdx = idxOf(ct, []string{"val", "r", "rune", "key"}, KindIs(reflect.Int32))
+	l.nodeIdx = idxOf(ct, []string{"node", "child"}, func(f reflect.StructField) bool {
+		return f.Type.Kind() == reflect.Ptr && f.Type.Elem() == nt
+	})
+	l.ok = l.valIdx >= 0 && l.nodeIdx >= 0
+	return l
+}
+
+func trieLayoutGet() trieLayout {
+	trieLay.once.Do(func() {
+		l := trieFindLayout()
+		if l.ok {
+			// self test: patterns ab, b, abc: 5 nodes; "ab" ends, size 2, fail "b"; "b" ends, fail root; "abc" fail nil-or-root
+			trieLay.l = l
+			t := algz.Trie{}
+			t.Insert("ab")
+			t.Insert("b")
+			t.Insert("abc")
+			t.BuildFailureLinks()
+			d := trieDumpWith(&t, l)
+			want := []int64{DUMPTAG, 5,
+				0, 0, 0, 2, -1,
+				1, 'a', 0, 1, 1, 0,
+				2, 'a', 'b', 1, 2, 1, 1, 'b',
+				3, 'a', 'b', 'c', 1, 3, 0, 0,
+				1, 'b', 1, 1, 0, 0}
+			good := len(d) == len(want)
+			for i := range want {
+				if good && d[i] != want[i] {
+					good = false
+				}
+			}
+			if !good {
+				l.ok = false
+			}
+		}
+		if !l.ok {
+			InstrLost("algz.Trie node layout (the structural Dump of the built trie is not observed)")
+		}
+		trieLay.l = l
+	})
+	return trieLay.l
+}
+
+// TrieDumpOK: whether the Dump observation is available on this tree
+func TrieDumpOK() bool { return trieLayoutGet().ok }
+
+func unex(f reflect.Value) reflect.Value {
 	return reflect.NewAt(f.Type(), unsafe.Pointer(f.UnsafeAddr())).Elem()
 }
 
-func trieDump(t *algz.Trie) (out []int64) {
+func trieDump(t *algz.Trie) []int64 {
+	l := trieLayoutGet()
+	if !l.ok {
+		return []int64{DUMPTAG, BADSTRUCT}
+	}
+	return trieDumpWith(t, l)
+}
+
+func trieDumpWith(t *algz.Trie, l trieLayout) (out []int64) {
 	defer func() {
 		if r := recover(); r != nil {
 			out = []int64{DUMPTAG, BADSTRUCT}
 		}
 	}()
 	tv := reflect.ValueOf(t).Elem()
-	if tv.Kind() != reflect.Struct || tv.NumField() != 1 {
-		panic("trie layout: Trie")
-	}
-	root := trieField(tv, "root", reflect.Struct)
-	if root.NumField() != 4 {
-		panic("trie layout: trieNode")
+	root := unex(tv.Field(l.rootIdx))
+	if l.rootIsPtr {
+		root = root.Elem()
 	}
 	words := map[unsafe.Pointer][]int64{}
 	var nodes []trieDumpNode
@@ -182,22 +304,16 @@ func trieDump(t *algz.Trie) (out []int64) {
 			panic("trie layout: not a tree")
 		}
 		words[id] = word
-		kids := trieField(n, "children", reflect.Slice)
-		fail := trieField(n, "fail", reflect.Ptr)
-		if fail.Type().Elem() != n.Type() {
-			panic("trie layout: fail")
-		}
-		nodes = append(nodes, trieDumpNode{word: word, isEnd: trieField(n, "isEnd", reflect.Bool).Bool(),
-			size: trieField(n, "size", reflect.Int).Int(), nkids: int64(kids.Len()), fail: fail.UnsafePointer()})
+		kids := unex(n.Field(l.kidsIdx))
+		fail := unex(n.Field(l.failIdx))
+		nodes = append(nodes, trieDumpNode{word: word, isEnd: unex(n.Field(l.endIdx)).Bool(),
+			size: unex(n.Field(l.sizeIdx)).Int(), nkids: int64(kids.Len()), fail: fail.UnsafePointer()})
 		for i := 0; i < kids.Len(); i++ {
 			ch := kids.Index(i)
-			if ch.Kind() != reflect.Struct || ch.NumField() != 2 {
-				panic("trie layout: childNode")
-			}
-			val := trieField(ch, "val", reflect.Int32).Int()
-			np := trieField(ch, "node", reflect.Ptr)
-			if np.IsNil() || np.Type().Elem() != n.Type() {
-				panic("trie layout: child pointer")
+			val := unex(ch.Field(l.valIdx)).Int()
+			np := unex(ch.Field(l.nodeIdx))
+			if np.IsNil() {
+				panic("trie layout: nil child pointer")
 			}
 			w := append(append(make([]int64, 0, len(word)+1), word...), val)
 			walk(np.Elem(), w)
